@@ -1184,17 +1184,44 @@ package ion
 //@ ensures[C12] (old(w.lst) == nil || old(w.wroteLST)) && old(len(w.ctx.arr)) > 0 && old(w.ctx.arr[len(w.ctx.arr)-1]) == ctxInStruct && old(w.fieldName) != nil &&
 //@    old(w.fieldName.LocalSID) == SymbolIDUnknown && old(w.fieldName.Text) == nil ==> err != nil
 
+// An annotation wrapper on top of the buffer stack is closed and handed one level up; nothing
+// else is touched (C12, C01).
 //@ func (*binaryWriter).endValue
+//@ split returns
 //@ modifies *
+//@ counts (*bufstack).pop
+//@ counts (*binaryWriter).emit
+//@ ensures[C01,C12] old(len(w.bufs.arr)) > 0 && old(vcIsWrapper(w.bufs.arr[len(w.bufs.arr)-1])) ==> vcCalls("(*bufstack).pop") == 1 && vcCalls("(*binaryWriter).emit") == 1
+//@ ensures[C01,C12] old(len(w.bufs.arr)) == 0 || !old(vcIsWrapper(w.bufs.arr[len(w.bufs.arr)-1])) ==> vcCalls("(*bufstack).pop") == 0 && vcCalls("(*binaryWriter).emit") == 0 && err == nil
 
+// Opening a container pushes its context and its buffer, once each, after the value prologue (C12).
 //@ func (*binaryWriter).begin
+//@ split returns
 //@ modifies *
+//@ counts (*ctxstack).push
+//@ counts (*bufstack).push
+//@ atcall[C12] (*ctxstack).push a1 == t
+//@ ensures[C12] err == nil ==> vcCalls("(*ctxstack).push") == 1 && vcCalls("(*bufstack).push") == 1
+//@ ensures[C12] err != nil ==> vcCalls("(*ctxstack).push") == 0 && vcCalls("(*bufstack).push") == 0
 
+// Closing a container is refused unless that kind of container is open; on success its
+// context is popped and the value epilogue runs, once each (C12).
 //@ func (*binaryWriter).end
+//@ split returns
 //@ modifies *
+//@ counts (*ctxstack).pop
+//@ counts (*binaryWriter).endValue
+//@ ensures[C12] old(specCtxTop(w.ctx.arr)) != t ==> err != nil && vcCalls("(*ctxstack).pop") == 0
+//@ ensures[C12] err == nil ==> vcCalls("(*ctxstack).pop") == 1 && vcCalls("(*binaryWriter).endValue") == 1
 
+// A node goes to the output only at top level, otherwise it is appended to the open buffer (C12).
 //@ func (*binaryWriter).emit
+//@ split returns
 //@ modifies *
+//@ counts bufnode.EmitTo
+//@ counts bufseq.Append
+//@ ensures[C12] old(len(w.bufs.arr)) == 0 ==> vcCalls("bufnode.EmitTo") == 1 && vcCalls("bufseq.Append") == 0
+//@ ensures[C12] old(len(w.bufs.arr)) > 0 && old(w.bufs.arr[len(w.bufs.arr)-1]) != nil ==> vcCalls("bufseq.Append") == 1 && vcCalls("bufnode.EmitTo") == 0 && err == nil
 
 //@ func (*binaryWriter).writeLST
 //@ modifies *
@@ -1228,7 +1255,13 @@ package ion
 
 // A value written inside a struct without a pending field name is refused (C12).
 //@ func (*binaryWriter).writeValue
+//@ split returns
 //@ modifies *
+//@ counts (*binaryWriter).beginValue
+//@ counts (*binaryWriter).write
+//@ counts (*binaryWriter).endValue
+//@ atcall[C01,C12] (*binaryWriter).write vcSameArray(a1, val) && len(a1) == len(val)
+//@ ensures[C12] err == nil && old(w.err) == nil ==> vcCalls("(*binaryWriter).beginValue") == 1 && vcCalls("(*binaryWriter).write") == 1 && vcCalls("(*binaryWriter).endValue") == 1
 //@ ensures[C12,C19] old(w.err) != nil ==> err == old(w.err) && w.err == old(w.err)
 //@ ensures[C12,C19] err != nil ==> w.err != nil
 //@ ensures[C12] old(w.err) == nil && (old(w.lst) == nil || old(w.wroteLST)) && old(len(w.ctx.arr)) > 0 && old(w.ctx.arr[len(w.ctx.arr)-1]) == ctxInStruct && old(w.fieldName) == nil ==> err != nil
